@@ -164,6 +164,14 @@ variable {K α : Type} [DecidableEq K] [Field α] [LinearOrder α] [IsStrictOrde
     (grade : α) (gu : GradeUnit) (d : α) (du : DistanceUnit) :
     (r.predict c speed su grade gu d du).1.2 = r.rateUnit.associatedEnergyUnit := rfl
 
+/-! ### battery capacity -/
+
+/-- the battery capacity is positive (nothing to say for an ICE) -/
+def CapacityPos : Vehicle α → Prop
+  | .ice _ => True
+  | .bev _ b => 0 < b.capacity
+  | .phev _ _ b => 0 < b.capacity
+
 /-! ### starting charge -/
 
 theorem withStartSoc_ok {b b' : Battery α} {x : α} (h : b.withStartSoc x = .ok b') :
@@ -172,6 +180,34 @@ theorem withStartSoc_ok {b b' : Battery α} {x : α} (h : b.withStartSoc x = .ok
   split at h
   · rename_i hx; cases h; exact ⟨hx, rfl⟩
   · cases h
+
+/-- `update_from_query` keeps the capacity -/
+theorem updateFromQuery_capacityPos {v v' : Vehicle α} {q : SocQuery α}
+    (h : v.updateFromQuery q = .ok v') (hp : CapacityPos v) : CapacityPos v' := by
+  cases v with
+  | ice r => simp only [Vehicle.updateFromQuery] at h; cases h; exact hp
+  | bev r b =>
+    cases q with
+    | nonNumeric => simp only [Vehicle.updateFromQuery] at h; cases h
+    | absent =>
+      simp only [Vehicle.updateFromQuery] at h
+      split at h
+      · rename_i b' hb; cases h; obtain ⟨_, rfl⟩ := withStartSoc_ok hb; exact hp
+      · cases h
+    | num x =>
+      simp only [Vehicle.updateFromQuery] at h
+      split at h
+      · rename_i b' hb; cases h; obtain ⟨_, rfl⟩ := withStartSoc_ok hb; exact hp
+      · cases h
+  | phev s d b =>
+    cases q with
+    | nonNumeric => simp only [Vehicle.updateFromQuery] at h; cases h
+    | absent => simp only [Vehicle.updateFromQuery] at h; cases h
+    | num x =>
+      simp only [Vehicle.updateFromQuery] at h
+      split at h
+      · rename_i b' hb; cases h; obtain ⟨_, rfl⟩ := withStartSoc_ok hb; exact hp
+      · cases h
 
 theorem asSoc_of_start (cap x : α) (hcap : cap ≠ 0) (hx : 0 ≤ x ∧ x ≤ 100) :
     asSocPercent (Lit.lit 1 100 * x * cap) cap = x := by
